@@ -3,6 +3,7 @@ package main
 
 import (
 	"fmt"
+	"strings"
 
 	"go.lstv.dev/util/sem"
 	"verif/mc"
@@ -105,8 +106,20 @@ func probeHist(h histArg) (string, string) {
 }
 
 type helperArg struct {
-	A mc.Bin `json:"a"`
-	B mc.Bin `json:"b"`
+	A      mc.Bin `json:"a"`
+	B      mc.Bin `json:"b"`
+	Custom int    `json:"custom_compare_prerelease,omitempty"` // 0 default; 1 reversed order; 2 plain string order (installed as sem.ComparePreRelease)
+}
+
+func setupHelpers(a helperArg) {
+	switch a.Custom {
+	case 1:
+		sem.ComparePreRelease = func(x, y string) int { return -sem.DefaultComparePreRelease(x, y) }
+	case 2:
+		sem.ComparePreRelease = func(x, y string) int { return strings.Compare(x, y) }
+	default:
+		sem.ComparePreRelease = sem.DefaultComparePreRelease[string, string]
+	}
 }
 
 // validity of a text for a helper by the reference recogniser: policy 0 optional v, 1 forbidden, 2 required
@@ -227,7 +240,7 @@ func main() {
 		r.Reset = reset
 		reset()
 		pL := mc.NewProbe(r, "laws", nil, probeLaws)
-		pH := mc.NewProbe(r, "helpers", nil, probeHelpers)
+		pH := mc.NewProbe(r, "helpers", setupHelpers, probeHelpers)
 		pN := mc.NewProbe(r, "next", nil, probeNext)
 		r.Assume("laws are judged on the implementation's own results (range, reflexivity, antisymmetry, build-insensitivity, Latest consistent with Compare); 'invalid for that helper' is decided by the reference recogniser")
 		L := 4
@@ -302,11 +315,24 @@ func main() {
 					} else {
 						w.Outcome("some invalid")
 					}
-					pH.Do(w, helperArg{mc.Bin(texts[i]), mc.Bin(texts[j])})
+					pH.Do(w, helperArg{A: mc.Bin(texts[i]), B: mc.Bin(texts[j])})
 				}
 			})
 		})
-		r.Sample("helpers", helperArg{"v1.0.0-a1", "1.0.0-a01"})
+		r.Sample("helpers", helperArg{A: "v1.0.0-a1", B: "1.0.0-a01"})
+		for custom := 1; custom <= 2; custom++ {
+			custom := custom
+			r.Phase(fmt.Sprintf("string helpers with a user-installed sem.ComparePreRelease (#%d): every helper must still return what comparing the parsed values returns", custom), "complete over the text set", func() {
+				setupHelpers(helperArg{Custom: custom})
+				r.Parallel(int64(len(texts)), 1, func(w *mc.W, i int64) {
+					for j := range texts {
+						w.Point()
+						pH.Do(w, helperArg{A: mc.Bin(texts[i]), B: mc.Bin(texts[j]), Custom: custom})
+					}
+				})
+				reset()
+			})
+		}
 		nums := []uint64{0, 1, 9, 1 << 32, 1<<63 - 1, 1 << 63, maxU - 1, maxU}
 		r.Phase(fmt.Sprintf("NextMajor/NextMinor/NextPatch on %d^3 cores x every pre-release of the universe x 2 builds", len(nums)), "complete", func() {
 			n := int64(len(nums))
